@@ -2,6 +2,7 @@ import WhVerif.Util.Proto
 import WhVerif.Model.C15
 import WhVerif.Model.C15Glue
 import WhVerif.Model.C15Solve
+import WhVerif.Model.C15Deep
 namespace WhVerif.Driver.C15
 open Lean WhVerif.Proto WhVerif.C15
 
@@ -171,8 +172,98 @@ def handleGlue (op : String) (j : Json) : Option Json :=
     | _, _ => some badInput
   else none
 
+/-! ### round 10: sub-instances, haploid sets, stage order -/
+
+def subJson (s : SubInst) : Json := Json.arr #[ofNat s.cid, ofNatList s.ts, ofNatList s.snps]
+
+/-- `[cid, [[local positions of a read]…]]` -/
+def parseCReads (j : Json) : Option (Nat × List (List Nat)) := do
+  match ← asArr? j with
+  | [c, rs] => some (← asNat? c, ← natListList? rs)
+  | _ => none
+
+def hasReadsOf (creads : List (Nat × List (List Nat))) (s : SubInst) : Bool :=
+  subHasReads ((creads.find? (fun e => e.1 == s.cid)).map (·.2) |>.getD []) s.snps
+
+/-- `[ts, snps, result columns]` -/
+def parsePair (j : Json) : Option (SubInst × List (List Int)) := do
+  match ← asArr? j with
+  | [ts, snps, res] => some (⟨0, ← natList? ts, ← natList? snps⟩, ← intListList? res)
+  | _ => none
+
+def parseHsCall (j : Json) : Option (Bool × Bool × Option (List Nat)) := do
+  match ← asArr? j with
+  | [a, b, c] => some (← asBool? a, ← asBool? b, if c.isNull then none else natList? c)
+  | _ => none
+
+def hsJson : HsOut → Json
+  | .absent => Json.str "absent"
+  | .missing => Json.str "."
+  | .empty => Json.str ""
+  | .values l => ofNatList l
+
+/-- `[col, gv, out]` of a recorded `force_genotypes` column -/
+def parseForced (j : Json) : Option (List Int × List Int × List Int) := do
+  match ← asArr? j with
+  | [a, b, c] => some (← intList? a, ← intList? b, ← intList? c)
+  | _ => none
+
+/-- `[ploidy, [sub-genotypes], [result columns]]` of a recorded recursive solve -/
+def parseSubSolve (j : Json) : Option (Nat × List (List Int) × List (List Int)) := do
+  match ← asArr? j with
+  | [k, g, r] => some (← asNat? k, ← intListList? g, ← intListList? r)
+  | _ => none
+
+def handleDeep (op : String) (j : Json) : Option Json :=
+  if op == "c15.subinstances" then
+    match (getObj? j "threads").bind natListList?, (getObj? j "cols").bind intListList?, getNat? j "ploidy",
+          (getList? j "creads").bind (·.mapM parseCReads) with
+    | some threads, some cols, some k, some creads =>
+      let subs := findSubinstances (hasReadsOf creads) k threads cols
+      some (Json.mkObj [("collapsed", ofList subJson (findCollapsed threads cols)), ("subs", ofList subJson subs),
+                        ("subgenotypes", ofList (fun s => ofIntListList (subGenotypes cols s)) subs)])
+    | _, _, _, _ => some badInput
+  else if op == "c15.integratehaps" then
+    match (getObj? j "cols").bind intListList?, (getList? j "pairs").bind (·.mapM parsePair) with
+    | some cols, some pairs => some (ofIntListList (integrateHaps cols pairs))
+    | _, _ => some badInput
+  else if op == "c15.haploid" then
+    match getNatList? j "acc", getNatList? j "cuts", (getObj? j "hap_cuts").bind natListList?, getNat? j "num_vars" with
+    | some acc, some cuts, some hc, some n =>
+      let keys := ((componentWrites acc n cuts).map (·.1)).eraseDups
+      some (ofList (fun k => Json.arr #[ofNat k, ofNatList ((haploidDict acc n cuts hc k).getD [])]) keys)
+    | _, _, _, _ => some badInput
+  else if op == "c15.hs" then
+    match getBool? j "repaired", getNat? j "ploidy", (getList? j "calls").bind (·.mapM parseHsCall) with
+    | some rep, some k, some calls => some (ofList (fun c => hsJson (hsOfCall rep k c.1 c.2.1 c.2.2)) calls)
+    | _, _, _ => some badInput
+  else if op == "c15.block" then
+    -- replay of one `phase_single_block` call: every heuristic is the table of what the real run did
+    match getNat? j "ploidy", (getObj? j "gts").bind intListList?, (getObj? j "threads").bind natListList?,
+          (getObj? j "cols0").bind intListList?, (getList? j "forced").bind (·.mapM parseForced),
+          (getList? j "creads").bind (·.mapM parseCReads), (getList? j "subsolves").bind (·.mapM parseSubSolve),
+          getNatList? j "bps", (getObj? j "perms").bind natListList? with
+    | some k, some gts, some threads, some cols0, some forced, some creads, some subsolves, some bps, some perms =>
+      let H : Heur := {
+        thread := fun _ _ => (threads, cols0)
+        pick := fun col gv aff _ =>
+          match forced.find? (fun e => e.1 == col && e.2.1 == gv) with
+          | some e => extractPerm aff e.2.2
+          | none => []
+        hasReads := hasReadsOf creads
+        reorder := fun _ _ => (bps, perms)
+        labels := fun _ gl => List.replicate gl.length 0 }
+      let solveSub := fun (k' : Nat) (g : List (List Int)) =>
+        match subsolves.find? (fun e => e.1 == k' && e.2.1 == g) with
+        | some e => e.2.2
+        | none => []
+      some (ofIntListList (phaseBlock H solveSub k gts))
+    | _, _, _, _, _, _, _, _, _ => some badInput
+  else none
+
 def handle (op : String) (j : Json) : Option Json :=
   if let some r := handleGlue op j then some r
+  else if let some r := handleDeep op j then some r
   else if op == "c15.force" then
     -- one column: col, gv (genotype expanded to a list of alleles), out (column returned by the real code)
     match getIntList? j "col", getIntList? j "gv", getIntList? j "out" with
